@@ -170,4 +170,36 @@ theorem reach_inv {e : EncSt} {s : St} (h : Reach e s) : EncInv e ∧ Refines e 
     obtain ⟨_, h2, h3, h4⟩ := encode_keeps_inv _ _ fuzz fsz out or o ih.1 ih.2.1 ho hf
     exact ⟨h2, h3, (stOk_iff _).mpr h4⟩
 
+/-! ### witnesses: the refinement map is total, observations exist -/
+
+/-- A skeleton state the ctl state `e` refines to (the fields the ctl layer does not determine set to 0). -/
+def stOfEnc (e : EncSt) : St :=
+  { fs := e.fs, channels := e.channels, application := e.application, useVbr := e.useVbr, userBitrate := e.userBitrate,
+    forceChannels := e.forceChannels, signalType := e.signalType, userBandwidth := e.userBandwidth,
+    maxBandwidth := e.maxBandwidth, userForcedMode := e.userForcedMode, lfe := e.lfe, useDtx := e.useDtx,
+    fecConfig := e.fecConfig, variableDuration := e.variableDuration, complexity := e.complexity, lossPerc := e.packetLoss,
+    useInBandFEC := e.useInBandFEC, energyMasking := if e.energyMasking then 1 else 0, streamChannels := e.streamChannels,
+    mode := e.mode, prevMode := e.prevMode, prevChannels := e.prevChannels, prevFramesize := e.prevFramesize,
+    bandwidth := e.bandwidth, autoBandwidth := 0, silkBwSwitch := 0, first := if e.first then 1 else 0,
+    voiceRatio := e.voiceRatio, detectedBandwidth := 0, nbNoActivity := e.noActivityQ1, nonfinalFrame := 0, bitrateBps := 0,
+    toMono := e.toMono, lbrrCoded := 0, allowBwSwitch := 0, inWBmode := 0, opusCanSwitch := 0, silkUseDtx := e.silkUseDTX }
+
+theorem refines_stOfEnc (e : EncSt) : Refines e (stOfEnc e) :=
+  ⟨rfl, rfl, rfl, rfl, rfl, rfl, rfl, rfl, rfl, rfl, rfl, rfl, rfl, rfl, rfl, rfl, rfl, rfl, rfl, rfl, rfl, rfl, rfl, rfl,
+   by unfold stOfEnc; cases e.first <;> simp, rfl, rfl, rfl, rfl⟩
+
+/-- The observation of a skeleton post-state (free fields: 16 kHz internal rate, VBR, no energy mask). -/
+def obsOfSt (s' : St) : EncObs :=
+  { first := decide (s'.first ≠ 0), bandwidth := s'.bandwidth, prevFramesize := s'.prevFramesize, rangeFinal := 0,
+    voiceRatio := s'.voiceRatio, forceChannels := s'.forceChannels, maxInternalSampleRate := 16000, useCBR := 0,
+    silkUseDTX := s'.silkUseDtx, prevMode := s'.prevMode, silkInDtx := 0, noActivityQ1 := s'.nbNoActivity,
+    streamChannels := s'.streamChannels, mode := s'.mode, prevChannels := s'.prevChannels, toMono := s'.toMono,
+    celtEnergyMask := false }
+
+theorem obsOf_obsOfSt (s' : St) : ObsOf s' (obsOfSt s') :=
+  ⟨by simp [obsOfSt], rfl, rfl, rfl, rfl, rfl, rfl, rfl, rfl, rfl, rfl, rfl⟩
+
+theorem freeOk_obsOfSt (e : EncSt) (s' : St) (h : -1 ≤ s'.voiceRatio ∧ s'.voiceRatio ≤ 100) : FreeOk e (obsOfSt s') :=
+  ⟨h, Or.inr (Or.inr rfl), Or.inl rfl, fun h => by cases h⟩
+
 end Opus.EncSkel.Proofs
